@@ -241,7 +241,9 @@ func TestVerif_C01_plugin(t *testing.T) {
 				}
 			}
 			dr := chains[0].readers
-			tb := vC01PCount(r, thrD, len(dr))
+			// off-ramp next: counts around the destination's threshold (what decides after fixes/F26.patch) or around the
+			// key chain's (what decided before); f_k < f_dest and f_k > f_dest both occur
+			tb := vC01PCount(r, vPick(r, []int{thrD, thrD, thr}), len(dr))
 			for j, ri := range r.Perm(len(dr)) {
 				if j < tb {
 					obs[dr[ri]].MerkleRootObs.OffRampNextSeqNums = append(obs[dr[ri]].MerkleRootObs.OffRampNextSeqNums,
